@@ -139,6 +139,7 @@ def enumerate_cases(tier: str):
     for old, new in PAIRS:
         cross = old.startswith("1") and new.startswith("2")
         excluded = {2} | ({22} if new == "2.2" else set()) | ({14} if cross else set())
+        tour_ok: list = []
         for events in drive.TOUR_EVENTS:
             if any(op[0] not in ("rx", "send") for op in events):
                 continue
@@ -148,6 +149,15 @@ def enumerate_cases(tier: str):
                 continue  # (outside the statement: types the older table lacks, the version report, 22 towards 2.2, gateway-ready across generations)
             for dim in ({"debug_log": True}, {"warnings": "error"}, {"via": "mqtt"}, {"via": "stream"}):
                 yield {"pair": [old, new], "metric": True, "registry": drive.TOUR_REGISTRY, "ops": [list(op) for op in events], **dim}
+            tour_ok.append(events)
+        # hidden switches: one message of every type the older table has (payload 0 and 1, from the gateway and from a node), then the tour
+        for mtype in range(0, INTERNAL_MAX[old] + 1):
+            if mtype in excluded:
+                continue
+            for sender in (0, 4):
+                for payload in ("0", "1"):
+                    yield {"pair": [old, new], "metric": True, "registry": drive.TOUR_REGISTRY,
+                           "ops": [["rx", f"{sender};255;3;0;{mtype};{payload}\n"]] + [list(op) for events in tour_ok for op in events]}
     # several commands parked for one sleeping node, some re-issued (first, middle, last), then the wake: the same lines in the same order
     for old, new in PAIRS:
         wakes = [t for t in (22, 32) if t <= INTERNAL_MAX[old] and not (t == 22 and new == "2.2")]
@@ -171,6 +181,15 @@ def enumerate_cases(tier: str):
                 for newer in ([2, 0, 1, 0, 0, "newer"], [2, 1, 1, 0, 0, "other key"], [2, 0, 1, 0, 2, "other type"]):
                     ops = first + [["send", [2, 0, 1, 0, 0, "older"], None], ["send", [2, 1, 1, 0, 2, "second"], None], ["rx_race", f"2;255;3;0;{wake_t};6\n", newer]] + later
                     yield {"pair": [old, new], "metric": True, "registry": ENUM_REGISTRY, "ops": ops}
+    # the shape of the registry when ids are asked for: the highest id taken (with gaps below), a full registry, an empty one, ids 0 and 255 present
+    def bare(i):
+        return {"node_id": i, "node_type": 17, "protocol_version": "2.0", "sketch_name": "", "sketch_version": "", "battery_level": 0, "heartbeat": 0, "sleeping": False, "children": {}}
+
+    for old, new in PAIRS:
+        for ids in ((1, 254), (254,), (253,), (1, 2, 253), tuple(range(1, 255)), tuple(range(0, 254)), (), (0,), (255,), (0, 255), (100, 200)):
+            reg = {str(i): bare(i) for i in ids}
+            ops = [["rx", "255;255;3;0;3;\n"], ["rx", "255;255;3;0;3;\n"], ["rx", "7;5;3;0;3;\n"], ["rx", "9;255;0;0;17;2.0\n"], ["rx", "255;255;3;1;3;\n"], ["rx", "254;255;0;0;17;2.0\n"], ["rx", "255;255;3;0;3;\n"]]
+            yield {"pair": [old, new], "metric": True, "registry": reg, "ops": ops}
     # what an application sends to a node that is asleep / awake / unknown, every command kind, then the node wakes
     for old, new in PAIRS:
         wakes = [t for t in (22, 32) if t <= INTERNAL_MAX[old] and not (t == 22 and new == "2.2")]
